@@ -1135,7 +1135,9 @@ V('crossjoin', lambda e, w: e.crossjoin(w.s[0], w.s[1], w.s[0]),
 V('antijoin', lambda e, w: e.antijoin(w.s[0], w.s[1], lkey='a', rkey='c'))
 V('lookupjoin', lambda e, w: e.lookupjoin(w.s[0], w.s[1], key='a',
                                           missing='M', rprefix='r_'))
-V('unjoin', lambda e, w: e.unjoin(w.s[0], 'b', autoincrement=(10, 5)))
+V('unjoin', lambda e, w: e.unjoin(w.s[0], 'b', autoincrement=(10, 5)),
+  lambda e, w: e.unjoin(w.s[0], 'b', presorted=True),
+  lambda e, w: e.unjoin(w.s[0], 'b', key='a', presorted=True))
 V('complement', lambda e, w: e.complement(w.s[0], w.s[0]))
 V('intersection', lambda e, w: e.intersection(w.s[0], w.s[0]))
 V('diff', lambda e, w: e.diff(w.s[0], w.s[1], strict=True))
